@@ -459,6 +459,27 @@ def observe(s):
     raise NotImplementedError
 
 
+def _multi_move(s, op, single):
+    """wt.move([p1, ..], d): one source after the other; an error keeps the moves already made"""
+    e = None
+    for src in op[1]:
+        t = s.copy()
+        e = single(t, ["mv", src, op[2]])
+        if e is not None:
+            return e
+        s.__dict__.update(t.__dict__)
+    return e
+
+
+def bzr_smart_add(s, p):
+    n = dl(s.disk, p)
+    if n is None or n[0] != "f":
+        return "Unmodelled"
+    if path2id(s.inv, p) is None and bzr_parent_check(s, p) is not None:
+        return "Unmodelled"
+    return bzr_add(s, p)
+
+
 def step(s, op):
     """returns error name or None; mutates s only on success (works on a copy)."""
     t = s.copy()
@@ -470,6 +491,7 @@ def step(s, op):
         elif k == "rmf": e = bzr_remove(t, P(op[1]), True)
         elif k == "ren": e = bzr_rename_one(t, P(op[1]), P(op[2]))
         elif k == "mv": e = bzr_move(t, P(op[1]), P(op[2]))
+        elif k == "sadd": e = bzr_smart_add(t, P(op[1]))
         elif k == "put": e = op_put(t, P(op[1]), CONTENTS[op[2]])
         elif k == "chmod": e = op_chmod(t, P(op[1]), op[2])
         elif k == "osrm": e = op_osrm(t, P(op[1]))
@@ -717,6 +739,13 @@ _bzr_step = step
 
 
 def step(s, op):
+    if op[0] == "mvn":
+        return _multi_move(s, op, step)
+    if op[0] == "sadd" and s.fmt == "git":
+        n = dl(s.disk, P(op[1]))
+        if n is None or n[0] != "f":
+            return "Unmodelled"
+        return step(s, ["add", op[1]])
     if s.fmt != "git":
         return _bzr_step(s, op)
     t = s.copy()
